@@ -357,3 +357,97 @@ Example ex_no_markup_from_data :
   tags_of (tree_view ex_opts ex_value) =
     [s_details; s_summary; s_div; s_span; s_div; s_details; s_summary; s_div; s_span; s_div; s_span; s_div; s_table; s_tr; s_td; s_span; s_span; s_td; s_span].
 Proof. split; vm_compute; reflexivity. Qed.
+
+(* ------------------------------------------------------------------------------------------ *)
+(* the same, for the document a parser sees: the tree view never puts two text nodes next to each other *)
+Lemma tv_not_text : forall o v css sc name path cl incl excl, is_text (tv o css sc name path cl incl excl v) = false.
+Proof. intros o v css sc name path cl incl excl. destruct v; cbn [tv]; destruct (needs_summary o name _); reflexivity. Qed.
+
+Lemma no_adjacent_no_text : forall l, forallb (fun x => negb (is_text x)) l = true -> no_adjacent_texts l = true.
+Proof.
+  induction l as [|a r IH]; intros H; [reflexivity|].
+  cbn [forallb] in H. apply andb_prop in H. destruct H as [Ha Hr].
+  destruct r as [|b r']; [reflexivity|]. cbn [no_adjacent_texts].
+  apply negb_true_iff in Ha. rewrite Ha. cbn [andb negb]. now apply IH.
+Qed.
+
+Lemma sepb_el_kids : forall tag opts attrs kids,
+  forallb sepb kids = true -> forallb (fun x => negb (is_text x)) kids = true -> sepb (El tag opts attrs kids) = true.
+Proof. intros tag opts attrs kids H1 H2. cbn [sepb]. now rewrite (no_adjacent_no_text _ H2), H1. Qed.
+
+Lemma sepb_summary : forall o css sc name path v, sepb (summary_el o css sc name path v) = true.
+Proof.
+  intros o css [[a|] [b|]] name path v; unfold summary_el;
+  destruct name; destruct (o_key_tooltip o); destruct (o_summary_tooltip o); reflexivity.
+Qed.
+Lemma sepb_key_cell : forall o k p, forallb sepb (key_cell o k p) = true /\ forallb (fun x => negb (is_text x)) (key_cell o k p) = true.
+Proof. intros o k p. unfold key_cell. destruct (o_key_color o) as [[a|] [b|]]; destruct (o_key_tooltip o); split; reflexivity. Qed.
+
+Theorem tv_sepb : forall o v css sc name path cl incl excl, sepb (tv o css sc name path cl incl excl v) = true.
+Proof.
+  intros o. induction v as [lk tn cn raw rep fmt|sq tn cn fmt items IH] using pv_ind'; intros css sc name path cl incl excl.
+  - cbn [tv]. destruct (needs_summary o name _).
+    + apply sepb_el_kids; [|reflexivity]. cbn [forallb]. now rewrite sepb_summary.
+    + reflexivity.
+  - cbn [tv].
+    set (rendered := map _ items).
+    set (order := ordered_keys incl excl _).
+    set (kids := flat_map _ order).
+    assert (Hr : forall k h, In (k, h) rendered -> sepb h = true /\ is_text h = false).
+    { intros k h Hin. subst rendered. apply in_map_iff in Hin. destruct Hin as ([k0 c] & E & Hin).
+      rewrite Forall_forall in IH. specialize (IH _ Hin). cbn [fst snd] in *. inv E.
+      destruct (sq || o_label_keys o).
+      - split; [|reflexivity]. cbn [sepb forallb no_adjacent_texts is_text andb negb].
+        destruct (sepb_key_cell o k (path ++ [k])) as [E1 E2]. rewrite E1, (no_adjacent_no_text _ E2), IH. reflexivity.
+      - split; [apply IH|apply tv_not_text]. }
+    assert (Hk : forallb sepb kids = true /\ forallb (fun x => negb (is_text x)) kids = true).
+    { subst kids. split; apply forallb_forall; intros h Hh; apply in_flat_map in Hh; destruct Hh as (k & _ & Hh);
+        (destruct (assoc_key k rendered) as [h'|] eqn:E; [|destruct Hh]);
+        destruct Hh as [<-|[]]; destruct (assoc_key_in _ _ _ E) as (k' & Hin); destruct (Hr _ _ Hin) as [H1 H2]; [exact H1|now rewrite H2]. }
+    destruct Hk as [Hk1 Hk2].
+    assert (Hc : forall attrs, sepb (El s_div [] attrs (match kids with
+                             | [] => [El s_span [] (class_attr [s_empty_container]) []]
+                             | _ :: _ => if sq || o_label_keys o then [El s_table [] [] kids] else kids
+                             end)) = true).
+    { intros attrs. clearbody kids. destruct kids as [|h r]; [reflexivity|]. destruct (sq || o_label_keys o).
+      - apply sepb_el_kids; [|reflexivity]. cbn [forallb]. now rewrite (sepb_el_kids s_table [] [] _ Hk1 Hk2).
+      - apply sepb_el_kids; assumption. }
+    destruct (needs_summary o name _).
+    + apply sepb_el_kids; [|reflexivity]. cbn [forallb]. now rewrite sepb_summary, Hc.
+    + apply Hc.
+Qed.
+
+(* the text nodes of the parsed document are exactly the non-empty text nodes the view built *)
+Theorem tree_view_parsed_texts : forall o v,
+  exists d, parse_html (render (tree_view o v)) = Some d /\
+            flat_map texts_of d = filter nonempty (texts_of (tree_view o v)).
+Proof.
+  intros o v. exists (normalize [tree_view o v]). split; [apply render_parse, tree_view_names_ok|].
+  apply normalize_texts. apply tv_sepb.
+Qed.
+
+Theorem all_leaves_present_parsed : forall o v p lk tn cn raw rep fmt,
+  sub_at v p (PLeaf lk tn cn raw rep fmt) -> path_included o p = true -> leaf_text o lk raw rep <> [] ->
+  exists d, parse_html (render (tree_view o v)) = Some d /\ In (leaf_text o lk raw rep) (flat_map texts_of d).
+Proof.
+  intros o v p lk tn cn raw rep fmt Hs Hp Hne.
+  destruct (tree_view_parsed_texts o v) as (d & Hd & Ht). exists d. split; [exact Hd|].
+  rewrite Ht. apply filter_In. split; [eapply all_leaves_present; eauto|].
+  destruct (leaf_text o lk raw rep); [now elim Hne|reflexivity].
+Qed.
+
+Theorem all_keys_present_parsed : forall o v p sq tn cn fmt items k c t,
+  sub_at v p (PNode sq tn cn fmt items) -> assoc_key k items = Some c ->
+  path_included o (p ++ [k]) = true -> key_shown_text o sq k c = Some t -> t <> [] ->
+  exists d, parse_html (render (tree_view o v)) = Some d /\ In t (flat_map texts_of d).
+Proof.
+  intros o v p sq tn cn fmt items k c t Hs Ha Hp Ht Hne.
+  destruct (tree_view_parsed_texts o v) as (d & Hd & Hx). exists d. split; [exact Hd|].
+  rewrite Hx. apply filter_In. split; [eapply all_keys_present; eauto|].
+  destruct t; [now elim Hne|reflexivity].
+Qed.
+
+Example ex_leaf_text_nonempty : leaf_text ex_opts LStr s_k_i s_k_i <> [].
+Proof. discriminate. Qed.
+Example ex_key_text_nonempty : s_k_i_closed <> [].
+Proof. discriminate. Qed.
